@@ -10,14 +10,14 @@ CONSTANTS
   CSerials = {0}
   Payloads = {1}
   TypeIds = {301}
-  Caps <- CapsOne
-  MaxCookie = 4
+  Caps <- CapsMany
+  MaxCookie = 2
   InqBound = 1
-  Kinds = {"CreateObject", "DestroyObject", "CreateService", "CreateService2", "DestroyService", "QueryServiceVersion", "QueryServiceInfo", "Sync"}
-  Faults = {"ends", "dropped", "sdb", "sdi"}
+  Kinds = {"CreateChannel", "CloseChannelEnd", "ClaimChannelEnd", "SendItem", "AddChannelCapacity"}
+  Faults = {"ends", "dropped"}
   WrongKinds = {}
   MsgBudget = 4
-  ScriptSel = "none"
+  ScriptSel = "chan"
   V0 = 20
   V1 = 20
 VIEW view
